@@ -51,7 +51,7 @@ def parse_annotations():
     return out
 
 
-BOUND_PATTERNS = ['unwinding assertion', 'capacity exceeded', 'recursion unwinding']
+BOUND_PATTERNS = ['unwinding assertion', 'capacity exceeded', 'recursion unwinding', 'is not currently supported by Kani', 'unsupported construct']
 
 
 def classify_failed_checks(checks):
@@ -122,7 +122,7 @@ def concrete_playback(stage_dir, stage_info, failing, timeout_s, log_dir):
     """failing: dict short_name -> contract file (basename). Returns dict name -> {'reproduced': bool, 'output': str, 'test': str}."""
     out = {n: {'reproduced': None, 'output': '', 'test': ''} for n in failing}
     cmd = ['cargo', 'kani', '-Z', 'unstable-options', '-Z', 'function-contracts', '-Z', 'stubbing', '-Z', 'concrete-playback',
-           '--concrete-playback=print', '--output-format', 'terse', '--harness-timeout', '%ds' % timeout_s]
+           '--concrete-playback=print', '--output-format', 'terse', '--harness-timeout', '%ds' % timeout_s, '-j', '16']
     for h in failing:
         cmd += ['--harness', h]
     p = subprocess.run(cmd, cwd=stage_dir, env=ENV, stdout=subprocess.PIPE, stderr=subprocess.STDOUT, text=True)
